@@ -21,10 +21,13 @@
 (* ImplRefinesDecl says they hand out the same sequence at every tick.        *)
 EXTENDS Integers, Sequences, FiniteSets, TLC, Json, CSV, IOUtils
 
-CONSTANTS ConfigSet,   \* records [P, age, L0, maxbuf, tick]: period (ticks), max_data_age_in_periods,
-                       \* initial_buffer_len, max_buffer_len, microseconds per tick
+CONSTANTS ConfigSet,   \* records [P, age, L0, maxbuf, tick, lead]: period (ticks), max_data_age_in_periods,
+                       \* initial_buffer_len, max_buffer_len, microseconds per tick, and how many ticks
+                       \* the SOURCE's clock runs ahead of the resampler's (every input timestamp is
+                       \* shifted by it, so whole prefixes of the input - the first sample included -
+                       \* are stamped after the next tick(s), by more than a period when lead > P)
           DeltaSet,    \* allowed differences between consecutive input timestamps (0 = burst)
-          Fut,         \* a sample may be stamped up to Fut ticks after the NEXT tick
+          Fut,         \* a sample may be stamped up to cfg.lead + Fut ticks after the NEXT tick
           MaxRecv, MaxInvalid, MaxTicks,
           Mode         \* "history": exhaustive, one emitted history per Tick transition
                        \* "sim": tlc -simulate, arguments drawn with RandomElement
@@ -78,13 +81,21 @@ BisectLoop(sq, xUs, lo, hi) ==
          ELSE BisectLoop(sq, xUs, mid + 1, hi)
 Bisect(sq, xUs) == BisectLoop(sq, xUs, 0, Len(sq))
 
+\* every condition of _update_source_sample_period holds except the last one: the first sample is
+\* stamped at or after the tick (`now <= props.sampling_start`), so no period can be inferred yet
+Guarded(T) ==
+    /\ periodUs = None /\ start # None
+    /\ ~(received * US < cfg.P * cfg.tick * cfg.age)
+    /\ ~(Len(buf) < maxlen)
+    /\ T <= start
+
 \* _update_source_sample_period(now = T): the new period, or None when it does not update
 Estimate(T) ==
     IF \/ periodUs # None
        \/ start = None
        \/ received * US < cfg.P * cfg.tick * cfg.age     \* < resampling_period.total_seconds() * max_age
        \/ Len(buf) < maxlen
-       \/ T <= start
+       \/ T <= start                                        \* now <= props.sampling_start
     THEN None
     ELSE RoundDivEven((T - start) * cfg.tick, received)
 
@@ -106,9 +117,9 @@ Init ==
     /\ buf = <<>> /\ maxlen = cfg.L0
     /\ start = None /\ received = 0 /\ periodUs = None
     /\ hist = <<>> /\ lost = 0
-    /\ all = <<>> /\ lastTs = 0 /\ nextT = cfg.P /\ nticks = 0
+    /\ all = <<>> /\ lastTs = cfg.lead /\ nextT = cfg.P /\ nticks = 0
     /\ lastT = None /\ winLoUs = None /\ handed = <<>> /\ declared = <<>> /\ emitted = None
-    /\ h = <<[a |-> "config", P |-> cfg.P, age |-> cfg.age, L0 |-> cfg.L0, maxbuf |-> cfg.maxbuf, tick |-> cfg.tick]>>
+    /\ h = <<[a |-> "config", P |-> cfg.P, age |-> cfg.age, L0 |-> cfg.L0, maxbuf |-> cfg.maxbuf, tick |-> cfg.tick, lead |-> cfg.lead]>>
 
 \* a sample arrives from the source; kind "valid", "none" (value None) or "nan"
 Recv(ts, kind) ==
@@ -149,7 +160,7 @@ TickWith(T, est) ==
 
 Tick ==
     /\ TickWith(nextT, Estimate(nextT))
-    /\ h' = Append(h, [a |-> "tick", T |-> nextT, est |-> (Estimate(nextT) # None),
+    /\ h' = Append(h, [a |-> "tick", T |-> nextT, est |-> (Estimate(nextT) # None), guarded |-> Guarded(nextT),
                        resized |-> (maxlen' # maxlen), upsampling |-> (periodUs' # None /\ periodUs' > cfg.P * cfg.tick),
                        evicted |-> lost', nhanded |-> Len(handed'),
                        nfuture |-> Cardinality({i \in 1..Len(buf') : buf'[i].ts > nextT})])
@@ -159,7 +170,7 @@ RecvH(ts, kind) == Recv(ts, kind) /\ h' = Append(h, [a |-> "recv", ts |-> ts, ki
 Kinds == {"valid", "none", "nan"}
 NInvalid == Cardinality({i \in 1..Len(all) : all[i].kind # "valid"})
 KindsNow == IF NInvalid < MaxInvalid THEN Kinds ELSE {"valid"}
-TsNow == {lastTs + d : d \in DeltaSet} \cap 0..(nextT + Fut)
+TsNow == {lastTs + d : d \in DeltaSet} \cap 0..(nextT + Fut + cfg.lead)
 
 RecvStep ==
     /\ Mode \in {"history", "sim"} /\ Len(all) < MaxRecv /\ TsNow # {}
@@ -203,6 +214,11 @@ NoneIffEmpty == (emitted = None) <=> (declared = <<>>)
 \* inside the window of a tick that is already over)
 AtTick == h[Len(h)].a = "tick"
 WindowSuffix == AtTick => WindowSuffixOf(handed, winLoUs, lastT) /\ CompleteWhenFitsOf(handed, winLoUs, lastT, lost)
+
+\* the input period is a duration inferred from samples that are already in the past of the tick:
+\* it exists only once a tick later than the first sample's stamp has passed, and it is positive
+InputPeriodSaneOf(pus, st, T) == pus # None => (pus > 0 /\ st # None /\ T # None /\ T > st)
+InputPeriodSane == InputPeriodSaneOf(periodUs, start, lastT)
 
 (* design-level invariants *)
 BufIsTailOfHist == buf = SubSeq(hist, Len(hist) - Len(buf) + 1, Len(hist)) /\ Len(buf) <= maxlen
